@@ -12,7 +12,7 @@
 (*                     deviation applies -- i.e. each deviation is an interoperability defect on   *)
 (*                     the model, and is harmless where its label does not apply                   *)
 (* plus the published constants as ASSUMEs.                                                        *)
-EXTENDS MpqFormat, TLC, IOUtils
+EXTENDS MpqFormatHB, TLC, IOUtils
 
 ASSUME KeyHashTable  == TableKeyHash  = <<50095, 14192>>      \* 0xC3AF3770  (mpq.md "Table Encryption")
 ASSUME KeyBlockTable == TableKeyBlock = <<60547, 45987>>      \* 0xEC83B3A3
@@ -65,51 +65,83 @@ MkFile(name, kind, enc, ssz) == [name |-> name, enc |-> enc, locale |-> 0, crc |
                                 @@ Shape(IF kind = "crcsecs" THEN "cmpsecs" ELSE kind, ssz)
 Prefix512 == [pi \in 1..512 |-> (pi * 7) % 251]
 
-Cfgs == {[ver |-> cc[1], shift |-> cc[2], hcount |-> 4, ndel |-> cc[3], hibt |-> cc[4],
-          prefix |-> IF cc[4] THEN Prefix512 ELSE <<>>] :
+\* fields of the V3/V4 part of a configuration (growth round 4); classic-only configurations carry neutral values
+NoX == [hetbet |-> FALSE, classic |-> TRUE, ghost |-> FALSE, hbits |-> 64, hettotal |-> 4, iextra |-> 0, hextra |-> 0, slack |-> 0,
+        hetstored |-> <<>>, betstored |-> <<>>]
+CfgsClassic ==
+        \* one configuration has a hash table (64 entries = 1024 bytes) that is larger than the 512 bytes of pre-archive data in
+        \* front of the header: table positions are relative to the header, whatever the table's size
+        {[ver |-> cc[1], shift |-> cc[2], hcount |-> IF cc[4] /\ cc[1] = 0 /\ cc[2] = 1 /\ Model # "cov" THEN 64 ELSE 4, ndel |-> cc[3], hibt |-> cc[4],
+          prefix |-> IF cc[4] THEN Prefix512 ELSE <<>>] @@ NoX :
             cc \in {c4 \in (IF Model = "cov" THEN {0, 1} ELSE {0, 1, 2}) \X {0, 1} \X {0, 1} \X BOOLEAN :
                       /\ (Model = "cov" => c4[3] = 1)
                       /\ (Model # "thorough" => c4[4] = (c4[3] = 1))}}
+\* V3 (ver 2) and V4 (ver 3) archives with HET/BET tables, with and without the classic tables next to them; the writer's
+\* free choices (name-hash width, HET array size incl. a full table, extra index / hash bits, slack bits in BET fields)
+\* are tied to the other dimensions
+CfgsX == {[ver |-> cc[1], shift |-> cc[2], hcount |-> 4, ndel |-> cc[3], hibt |-> cc[3] = 1,
+           prefix |-> IF cc[3] = 1 THEN Prefix512 ELSE <<>>,
+           hetbet |-> TRUE, classic |-> cc[4], ghost |-> cc[4] /\ cc[2] = 1 /\ cc[3] = 0, hbits |-> IF cc[2] = 0 THEN 64 ELSE (IF cc[3] = 0 THEN 40 ELSE 17),
+           hettotal |-> IF cc[3] = 0 THEN 2 ELSE 5, iextra |-> cc[3], hextra |-> 3 * cc[2], slack |-> cc[3],
+           hetstored |-> <<>>, betstored |-> <<>>] :
+            cc \in {c4 \in {2, 3} \X {0, 1} \X {0, 1} \X BOOLEAN :
+                      /\ (Model = "cov" => c4[1] = 3 /\ c4[2] = 1 /\ c4[3] = 1 /\ c4[4])
+                      /\ (Model = "quick" => (c4[4] = (c4[2] = c4[3]) \/ c4[1] = 3))}}
+\* the -coverage run of the tiny instance (thorough tier) leaves the V3/V4 configurations out: TLC's coverage bookkeeping of the
+\* deep HET/BET definitions exhausts the heap; MEmitHet/MEmitBet are still taken (as no-ops) and counted
+Cfgs == IF "C02_COVRUN" \in DOMAIN IOEnv THEN CfgsClassic ELSE CfgsClassic \cup CfgsX
+XDialects == IF Model = "cov" THEN {XStd} ELSE {XStd, XLib}
 
-VARIABLES vfiles, vcfg, vdial, vwst, vphase, vnext, vimg, vchecked
-mvars == <<vfiles, vcfg, vdial, vwst, vphase, vnext, vimg, vchecked>>
+VARIABLES vfiles, vcfg, vdial, vxd, vwst, vphase, vnext, vimg, vchecked
+mvars == <<vfiles, vcfg, vdial, vxd, vwst, vphase, vnext, vimg, vchecked>>
 
 SSz == SectorSize(vcfg.shift)
 
 Init == /\ vcfg \in Cfgs
         /\ vdial \in Dialects
+        /\ vxd \in XDialects
+        /\ (vcfg.hetbet => vdial = Std)              \* the table dimensions are explored with standard file layouts
+        /\ (~vcfg.hetbet => vxd = XStd)
         /\ \E k1 \in Kinds1, e1 \in Encs1, k2 \in Kinds2, e2 \in Encs2 :
              /\ (k1 = "crcsecs" => vdial # LibW)       \* the writer side of `crclayout` is not modelled
+             /\ (vcfg.hetbet => k2 = "cmpsecs" /\ e2 = "fix")   \* V3/V4: the second file's shape is fixed (bounds the thorough model)
              /\ vfiles = << MkFile(NameB, k1, e1, SectorSize(vcfg.shift)), MkFile(NameA, k2, e2, SectorSize(vcfg.shift)) >>
         /\ vwst = <<>> /\ vphase = "begin" /\ vnext = 1 /\ vimg = <<>> /\ vchecked = {}
 
 MBegin == /\ vphase = "begin"
           /\ \A fi \in 1..Len(vfiles) : FileWellFormed(vfiles[fi], SSz)
-          /\ vwst' = WBegin(vfiles, vcfg) /\ vphase' = "files"
-          /\ UNCHANGED <<vfiles, vcfg, vdial, vnext, vimg, vchecked>>
+          /\ vwst' = WBeginX4(vfiles, vcfg) /\ vphase' = "files"
+          /\ UNCHANGED <<vfiles, vcfg, vdial, vxd, vnext, vimg, vchecked>>
 MAppendFile == /\ vphase = "files" /\ vnext <= Len(vfiles)
                /\ vwst' = WAppendFile(vwst, vfiles[vnext], vcfg, vdial) /\ vnext' = vnext + 1
-               /\ UNCHANGED <<vfiles, vcfg, vdial, vphase, vimg, vchecked>>
-MEmitHash == /\ vphase = "files" /\ vnext > Len(vfiles)
-             /\ vwst' = WEmitHash(vwst, vcfg) /\ vphase' = "block"
-             /\ UNCHANGED <<vfiles, vcfg, vdial, vnext, vimg, vchecked>>
+               /\ UNCHANGED <<vfiles, vcfg, vdial, vxd, vphase, vimg, vchecked>>
+\* HET and BET follow the file data (no-ops for archives without them)
+MEmitHet == /\ vphase = "files" /\ vnext > Len(vfiles)
+            /\ vwst' = WEmitHet(vwst, vfiles, vcfg, vxd) /\ vphase' = "bet"
+            /\ UNCHANGED <<vfiles, vcfg, vdial, vxd, vnext, vimg, vchecked>>
+MEmitBet == /\ vphase = "bet"
+            /\ vwst' = WEmitBet(vwst, vfiles, vcfg, vxd) /\ vphase' = "hash"
+            /\ UNCHANGED <<vfiles, vcfg, vdial, vxd, vnext, vimg, vchecked>>
+MEmitHash == /\ vphase = "hash"
+             /\ vwst' = WEmitHashX(vwst, vcfg) /\ vphase' = "block"
+             /\ UNCHANGED <<vfiles, vcfg, vdial, vxd, vnext, vimg, vchecked>>
 MEmitBlock == /\ vphase = "block"
-              /\ vwst' = WEmitBlock(vwst, vcfg) /\ vphase' = "hiblock"
-              /\ UNCHANGED <<vfiles, vcfg, vdial, vnext, vimg, vchecked>>
+              /\ vwst' = WEmitBlockX(vwst, vcfg) /\ vphase' = "hiblock"
+              /\ UNCHANGED <<vfiles, vcfg, vdial, vxd, vnext, vimg, vchecked>>
 MEmitHiBlock == /\ vphase = "hiblock"
-                /\ vwst' = WEmitHiBlock(vwst, vcfg) /\ vphase' = "header"
-                /\ UNCHANGED <<vfiles, vcfg, vdial, vnext, vimg, vchecked>>
+                /\ vwst' = WEmitHiBlockX(vwst, vcfg) /\ vphase' = "header"
+                /\ UNCHANGED <<vfiles, vcfg, vdial, vxd, vnext, vimg, vchecked>>
 MPatchHeader == /\ vphase = "header"
-                /\ vimg' = WFinish(WPatchHeader(vwst, vcfg), vcfg) /\ vphase' = "read" /\ vwst' = <<>>
-                /\ UNCHANGED <<vfiles, vcfg, vdial, vnext, vchecked>>
+                /\ vimg' = WFinish(WPatchHeaderX(vwst, vcfg, vxd), vcfg) /\ vphase' = "read" /\ vwst' = <<>>
+                /\ UNCHANGED <<vfiles, vcfg, vdial, vxd, vnext, vchecked>>
 \* the reader: one step per looked-up name (no state besides which names were read)
 MReadFile == /\ vphase = "read"
              /\ \E fi \in 1..Len(vfiles) : fi \notin vchecked /\ vchecked' = vchecked \cup {fi}
-             /\ UNCHANGED <<vfiles, vcfg, vdial, vwst, vphase, vnext, vimg>>
+             /\ UNCHANGED <<vfiles, vcfg, vdial, vxd, vwst, vphase, vnext, vimg>>
 MReadAbsent == /\ vphase = "read" /\ 0 \notin vchecked /\ vchecked' = vchecked \cup {0}
-               /\ UNCHANGED <<vfiles, vcfg, vdial, vwst, vphase, vnext, vimg>>
+               /\ UNCHANGED <<vfiles, vcfg, vdial, vxd, vwst, vphase, vnext, vimg>>
 
-Next == MBegin \/ MAppendFile \/ MEmitHash \/ MEmitBlock \/ MEmitHiBlock \/ MPatchHeader \/ MReadFile \/ MReadAbsent
+Next == MBegin \/ MAppendFile \/ MEmitHet \/ MEmitBet \/ MEmitHash \/ MEmitBlock \/ MEmitHiBlock \/ MPatchHeader \/ MReadFile \/ MReadAbsent
 
 \* ---- invariants --------------------------------------------------------------------------
 Names == {vfiles[fi].name : fi \in 1..Len(vfiles)}
@@ -120,39 +152,85 @@ Matches(dec, f) == /\ dec.res = "ok" /\ dec.fsize = f.fsize /\ dec.enc = f.enc
                    /\ dec.crc = (IF f.crc /\ f.cflag /\ ~f.single /\ f.fsize > 0 THEN "ok" ELSE "none")
 
 \* layout facts while writing: block entries point inside the image, in order, no overlap
-LayoutOk == vphase \in {"files", "block", "hiblock", "header"} =>
+HCnt == IF vcfg.classic THEN vcfg.hcount ELSE 0
+BCnt == IF vcfg.classic THEN Len(vwst.blocks) ELSE 0
+DataEnd == IF vwst.blocks = <<>> THEN HeaderSizeX(vcfg.ver)
+           ELSE NatOf(vwst.blocks[Len(vwst.blocks)].pos) + NatOf(vwst.blocks[Len(vwst.blocks)].csize)
+LayoutOk == vphase \in {"files", "bet", "hash", "block", "hiblock", "header"} =>
   /\ \A bi \in 1..Len(vwst.blocks) :
-       /\ NatOf(vwst.blocks[bi].pos) >= HeaderSize(vcfg.ver)
+       /\ NatOf(vwst.blocks[bi].pos) >= HeaderSizeX(vcfg.ver)
        /\ NatOf(vwst.blocks[bi].pos) + NatOf(vwst.blocks[bi].csize) <= Len(vwst.img)
        /\ (bi > 1 => NatOf(vwst.blocks[bi].pos) = NatOf(vwst.blocks[bi-1].pos) + NatOf(vwst.blocks[bi-1].csize))
   /\ Cardinality({hs \in 0..(vcfg.hcount - 1) : vwst.hash[hs].blk \notin {HASH_EMPTY, HASH_DELETED}}) = Len(vwst.blocks)
   \* every block index in the hash table is the index of a written block; tables follow the data, back to back
   /\ \A hs \in 0..(vcfg.hcount - 1) :
         vwst.hash[hs].blk \notin {HASH_EMPTY, HASH_DELETED} => NatOf(vwst.hash[hs].blk) \in 0..(Len(vwst.blocks) - 1)
+  \* HET then BET directly behind the file data (both absent: sizes 0)
+  /\ (vphase \in {"bet", "hash", "block", "hiblock", "header"} =>
+        /\ (vcfg.hetbet => vwst.hetpos = DataEnd /\ vwst.hetsz >= 12 + 32 + vcfg.hettotal)
+        /\ (~vcfg.hetbet => vwst.hetpos = 0 /\ vwst.hetsz = 0))
+  /\ (vphase \in {"hash", "block", "hiblock", "header"} =>
+        /\ (vcfg.hetbet => vwst.betpos = vwst.hetpos + vwst.hetsz /\ vwst.betsz >= 12 + 76 + 4)
+        /\ (vphase = "hash" => Len(vwst.img) = DataEnd + vwst.hetsz + vwst.betsz))
   /\ (vphase \in {"block", "hiblock", "header"} =>
-        /\ vwst.htpos = (IF vwst.blocks = <<>> THEN HeaderSize(vcfg.ver)
-                         ELSE NatOf(vwst.blocks[Len(vwst.blocks)].pos) + NatOf(vwst.blocks[Len(vwst.blocks)].csize))
-        /\ (vphase = "block" => Len(vwst.img) = vwst.htpos + 16 * vcfg.hcount))
+        /\ (vcfg.classic => vwst.htpos = DataEnd + vwst.hetsz + vwst.betsz)
+        /\ (~vcfg.classic => vwst.htpos = 0)
+        /\ (vphase = "block" => Len(vwst.img) = DataEnd + vwst.hetsz + vwst.betsz + 16 * HCnt))
   /\ (vphase \in {"hiblock", "header"} =>
-        /\ vwst.btpos = vwst.htpos + 16 * vcfg.hcount
-        /\ Len(vwst.img) >= vwst.btpos + 16 * Len(vwst.blocks))
+        /\ (vcfg.classic => vwst.btpos = vwst.htpos + 16 * HCnt)
+        /\ (~vcfg.classic => vwst.btpos = 0)
+        /\ Len(vwst.img) >= vwst.btpos + 16 * BCnt)
+
+\* ---- reading back ------------------------------------------------------------------------
+IsX == vcfg.ver = 3 \/ vcfg.hetbet
+\* a V3/V4 archive as the reference opens it: header, classic tables (if any), plain HET/BET bodies (the model stores them raw)
+XAr == OpenArchiveX(vimg)
+XTabs == LET et == XTablesOfArchive(vimg, XAr) IN XTables(et.het.p, et.bet.p)
+XExt == XTablesOfArchive(vimg, XAr)
+\* everything the reference requires of the two tables under x-dialect xx
+XTablesOk(xx) ==
+  /\ XExt.het.res = "ok" /\ XExt.bet.res = "ok" /\ XExt.het.m = -1 /\ XExt.bet.m = -1
+  /\ HetConforms(XTabs.het, XExt.het.dsize, xx) /\ BetConforms(XTabs.bet, XExt.bet.dsize, xx)
+  /\ HetBetAgree(XTabs.het, XTabs.bet, xx) /\ XSlotsOk(XTabs, xx)
+\* the files come back through HET/BET under x-dialect xx, and an absent name is not found
+XReadsBack(xx) ==
+  /\ XAr.res = "ok" /\ XAr.base = Len(vcfg.prefix) /\ HeaderOkX(XAr, xx)
+  /\ XTablesOk(xx)
+  /\ \A fi \in 1..Len(vfiles) : Matches(RefReadFileX(vimg, XAr.base, XAr.hn.shift, XTabs, vfiles[fi].name, vdial, xx), vfiles[fi])
+  /\ RefReadFileX(vimg, XAr.base, XAr.hn.shift, XTabs, Absent, vdial, xx).res = "notfound"
+\* ... and through the classic tables of the same archive (both ways must give the same files)
+XClassicReadsBack ==
+  LET ht == HashTableOf(vimg, XAr.base, XAr.hn)
+      bt == BlockTableOf(vimg, XAr.base, XAr.hn)
+  IN  /\ XAr.hn.htcount = vcfg.hcount /\ XAr.hn.btcount = Len(vfiles)
+      /\ \A fi \in 1..Len(vfiles) : IF vcfg.ghost THEN RefReadFile(vimg, XAr, ht, bt, vfiles[fi].name, vdial).res = "notfound"
+                                     ELSE Matches(RefReadFile(vimg, XAr, ht, bt, vfiles[fi].name, vdial), vfiles[fi])
+      /\ RefReadFile(vimg, XAr, ht, bt, Absent, vdial).res = "notfound"
 
 RoundTrip == vphase = "read" /\ vchecked = {} =>
-  LET ar  == OpenArchive(vimg)
-      dec == Decoded(vdial)
-  IN  /\ vimg = RefWrite(vfiles, vcfg, vdial)                 \* the fold equals the stepwise machine
-      /\ ar.res = "ok" /\ ar.base = Len(vcfg.prefix)
-      /\ ar.hn.ver = vcfg.ver /\ ar.hn.shift = vcfg.shift /\ ar.hn.htcount = vcfg.hcount /\ ar.hn.btcount = Len(vfiles)
-      /\ \A fi \in 1..Len(vfiles) : Matches(dec[vfiles[fi].name], vfiles[fi])
-      \* a non-conformant writer dialect is *visible* to the standard reader only through its labels
-      /\ dec[Absent].res = "notfound"
+  /\ vimg = RefWriteX(vfiles, vcfg, vdial, vxd)                 \* the fold equals the stepwise machine
+  /\ IF IsX
+     THEN /\ XAr.hn.ver = vcfg.ver /\ XAr.hn.shift = vcfg.shift
+          /\ (vcfg.hetbet => XReadsBack(vxd))
+          /\ (vcfg.classic => XClassicReadsBack)
+          /\ (~vcfg.classic => XAr.hn.htcount = 0 /\ XAr.hn.btcount = 0)
+          /\ Len(Md5Ranges(XAr.hn, XAr.hx)) = (IF vcfg.ver # 3 THEN 0 ELSE 1 + (IF vcfg.hetbet THEN 2 ELSE 0) + (IF vcfg.classic THEN 2 + (IF vcfg.hibt THEN 1 ELSE 0) ELSE 0))
+     ELSE LET ar  == OpenArchive(vimg)
+              dec == Decoded(vdial)
+          IN  /\ vimg = RefWrite(vfiles, vcfg, vdial)
+              /\ ar.res = "ok" /\ ar.base = Len(vcfg.prefix)
+              /\ ar.hn.ver = vcfg.ver /\ ar.hn.shift = vcfg.shift /\ ar.hn.htcount = vcfg.hcount /\ ar.hn.btcount = Len(vfiles)
+              /\ \A fi \in 1..Len(vfiles) : Matches(dec[vfiles[fi].name], vfiles[fi])
+              /\ dec[Absent].res = "notfound"
 
-AbsentNotFound == vphase = "read" => RefRead(vimg, {Absent}, Std)[Absent].res = "notfound"
+AbsentNotFound == vphase = "read" =>
+  IF IsX THEN (vcfg.hetbet /\ vxd = XStd => RefReadFileX(vimg, XAr.base, XAr.hn.shift, XTabs, Absent, Std, XStd).res = "notfound")
+  ELSE RefRead(vimg, {Absent}, Std)[Absent].res = "notfound"
 
 \* cross-dialect: decode with the *other* side's dialect.  Std-written read by the library dialect
 \* (direction 2) and library-written read by Std (direction 1).
 Cross == IF vdial = Std THEN LibR ELSE Std
-DeviationsBreak == vphase = "read" /\ vchecked = {} /\ vdial \in {Std, LibW} =>
+DeviationsBreak == vphase = "read" /\ vchecked = {} /\ vdial \in {Std, LibW} /\ ~IsX =>
   LET dec == Decoded(Cross)
       own == Decoded(vdial)
   IN  \A fi \in 1..Len(vfiles) :
@@ -164,5 +242,24 @@ DeviationsBreak == vphase = "read" /\ vchecked = {} /\ vdial \in {Std, LibW} =>
                      \cup (IF "rawsector" \in labels /\ (vdial = LibW \/ (f.enc # "plain" /\ Len(f.sectors) > 1))
                            THEN {"rawsector"} ELSE {})
         IN  (bites = {}) <=> Matches(dec[f.name], f)
+
+\* Every named deviation of the HET/BET part is an interoperability defect on the model: an archive written in the
+\* published format is NOT read back under the deviating x-dialect exactly where the deviation can matter (and is read back
+\* where it cannot); the library's dialect as a whole (XLib) never reads a standard archive, nor the other way round.
+NatBit(name, bitno) == JenkinsBits(name, XStd)[bitno]
+XBlocks == [fi \in 1..Len(vfiles) |-> BetEntry(XTabs, fi - 1, XStd).be]        \* file index = position in block order
+XBites(lb) ==
+  CASE lb = "upper"    -> TRUE                                   \* the names of the model contain letters
+    [] lb = "libhdr"   -> TRUE                                   \* table_size and the total-size fields always differ
+    [] lb = "free255"  -> vcfg.hettotal > Len(vfiles)            \* some slot is free
+    [] lb = "nor64"    -> vcfg.hbits = 64 /\ \E fi \in 1..Len(vfiles) : NatBit(vfiles[fi].name, 64) = 0
+    \* the whole-hash reading forces the top bit of the BET width: differs where that bit of the hash is 0
+    [] lb = "betfull"  -> \E fi \in 1..Len(vfiles) : NatBit(vfiles[fi].name, vcfg.hbits - 8) = 0
+    [] lb = "betorder" -> \E fi \in 1..Len(vfiles) : NatOf(XBlocks[fi].fsize) # NatOf(XBlocks[fi].csize)
+    [] lb = "hetlow"   -> TRUE
+DeviationsBreakX == vphase = "read" /\ vchecked = {} /\ vcfg.hetbet /\ vxd = XStd =>
+  /\ \A lb \in XFlags : XBites(lb) <=> ~XReadsBack(XOnly(lb))
+  /\ ~XReadsBack(XLib)
+DeviationsBreakXL == vphase = "read" /\ vchecked = {} /\ vcfg.hetbet /\ vxd = XLib => ~XReadsBack(XStd)
 
 =============================================================================
